@@ -648,6 +648,8 @@ pub fn explore(thorough: bool, result_path: &str) {
             }
         }
     });
+    let mut rep = rep;
+    explore_flat(thorough, &mut rep);
     let spaces: Vec<Value> = subs.iter().map(|s| json!({"name": s.name, "size": s.size})).collect();
     let mut extra = Map::new();
     extra.insert("spaces".into(), json!(spaces.len()));
@@ -666,7 +668,7 @@ pub fn explore(thorough: bool, result_path: &str) {
     });
     let res = rep.to_result(
         "C01",
-        "every string of the stated alphabets up to the stated length in every listed parser context, every single deviation of every corpus seed, every p^n scaling family; non-trivial = the run produced at least one diagnostic or more than 3000 bytes of output; distinct = distinct index in the enumeration",
+        "every string of the stated alphabets up to the stated length in every listed parser context, every single deviation of every corpus seed, every p^n scaling family, and 17 flat families (one unit repeated 3*10^4 .. 3*10^5 times at nesting depth 1) each in a child process of its own, where an abort of the process is observed as such; non-trivial = the run produced at least one diagnostic or more than 3000 bytes of output; distinct = distinct index in the enumeration",
         bound,
         true,
         &["rustc catch_unwind observes every panic; aborts are observed by ./check as a dead engine and re-run singly",
@@ -676,8 +678,152 @@ pub fn explore(thorough: bool, result_path: &str) {
     write_result(result_path, &res);
 }
 
+// --- flat families run in child processes ---------------------------------------------------------------------------
+//
+// A process abort (stack overflow in a recursive pass over a chain the parser builds from a FLAT input) cannot be caught
+// in-process: it would take the whole engine down. Each case of this sub-space runs in a child process of its own.
+
+/// (name, prefix, repeated unit, suffix, is stylesheet)
+pub const FLAT_KINDS: &[(&str, &str, &str, &str, bool)] = &[
+    ("text:binding-run", "", "{{a}}", "", false),
+    ("text:static+binding-run", "", "x{{a}}", "", false),
+    ("attr:binding-run", "<a b=\"", "{{a}}", "\"/>", false),
+    ("attr:static+binding-run", "<a class=\"", "c {{a}} ", "\"/>", false),
+    ("text:entity-run", "", "&amp;x", "", false),
+    ("text:two-nodes-run", "", "{{a}}<!--c-->", "", false),
+    ("elements:sibling-run", "", "<a/>", "", false),
+    ("elements:if-elif-run", "<a wx:if=\"{{x}}\"/>", "<a wx:elif=\"{{x}}\"/>", "", false),
+    ("attributes:run", "<a ", "b=\"1\" ", "/>", false),
+    ("expr:array-items-run", "{{ [", "a,", "] }}", false),
+    ("expr:object-fields-run", "{{ {", "a:1,", "} }}", false),
+    ("expr:call-arguments-run", "{{ f(", "a,", "a) }}", false),
+    ("css:declaration-run", ".a{", "k:v;", "}", true),
+    ("css:selector-list-run", "", ".a,", ".b{}", true),
+    ("css:rule-run", "", ".a{}", "", true),
+    ("css:import-run", "", "@import \"a\";", "", true),
+    ("css:value-token-run", ".a{k:", "1px ", "}", true),
+];
+
+pub fn flat_case(kind: usize, n: usize) -> Case {
+    let (_, pre, unit, suf, css) = FLAT_KINDS[kind];
+    let src = format!("{}{}{}", pre, unit.repeat(n), suf);
+    if css {
+        Case::Css { src, opts: css_option_sets(false)[1].clone() }
+    } else {
+        Case::Tmpl { path: "p".to_string(), src }
+    }
+}
+
+/// child process: run one case, print its outcome
+pub fn child(file: &str) {
+    silence_panics();
+    let v: Value = serde_json::from_slice(&std::fs::read(file).expect("read case")).expect("json");
+    let case = if v["flat_kind"].is_u64() { flat_case(v["flat_kind"].as_u64().unwrap() as usize, v["n"].as_u64().unwrap() as usize) } else { Case::from_json(&v["case"]).expect("case") };
+    let o = run_case(&case);
+    println!("{}", json!({"failure": o.failure.map(|f| json!([f.0, f.1.chars().take(300).collect::<String>()])), "fuel": o.fuel, "output_bytes": o.out_len, "diagnostics": o.diag_count}));
+}
+
+/// parent side: (class, detail) of a failure, or None; `Err` = machinery problem
+pub fn run_in_child(spec: &Value, tag: &str) -> Result<(Option<(String, String)>, Value), String> {
+    use std::io::Read;
+    let file = format!("/verif/.work/c01-child-{}-{}.json", std::process::id(), tag);
+    std::fs::write(&file, serde_json::to_vec(spec).unwrap()).map_err(|e| e.to_string())?;
+    let exe = std::env::current_exe().map_err(|e| e.to_string())?;
+    let mut ch = std::process::Command::new(exe).arg("c01-child").arg(&file).stdout(std::process::Stdio::piped()).stderr(std::process::Stdio::null()).spawn().map_err(|e| e.to_string())?;
+    let t0 = std::time::Instant::now();
+    let status = loop {
+        match ch.try_wait().map_err(|e| e.to_string())? {
+            Some(st) => break Some(st),
+            None => {
+                if t0.elapsed().as_secs() > 120 {
+                    let _ = ch.kill();
+                    let _ = ch.wait();
+                    break None;
+                }
+                std::thread::sleep(std::time::Duration::from_millis(20));
+            }
+        }
+    };
+    let _ = std::fs::remove_file(&file);
+    let Some(status) = status else {
+        return Ok((Some(("hang".into(), "no answer within 120 s".into())), Value::Null));
+    };
+    if !status.success() {
+        use std::os::unix::process::ExitStatusExt;
+        let what = match status.signal() {
+            Some(sig) => format!("the process is killed by signal {} ({})", sig, if sig == 6 || sig == 11 { "stack overflow / abort" } else { "unexpected signal" }),
+            None => format!("the process exits with status {:?}", status.code()),
+        };
+        return Ok((Some(("process-abort".into(), what)), Value::Null));
+    }
+    let mut out = String::new();
+    ch.stdout.take().unwrap().read_to_string(&mut out).map_err(|e| e.to_string())?;
+    let v: Value = serde_json::from_str(out.trim()).map_err(|e| format!("child output {:?}: {}", out, e))?;
+    let failure = v["failure"].as_array().map(|a| (a[0].as_str().unwrap_or("").to_string(), a[1].as_str().unwrap_or("").to_string()));
+    Ok((failure, v))
+}
+
+pub fn flat_sizes(thorough: bool) -> &'static [usize] {
+    if thorough { &[30_000, 100_000, 300_000] } else { &[30_000, 100_000] }
+}
+
+/// explore the flat families (sequentially over sizes, kinds in parallel)
+fn explore_flat(thorough: bool, rep: &mut Report) {
+    let sizes = flat_sizes(thorough);
+    let results: Vec<(usize, usize, Result<(Option<(String, String)>, Value), String>)> = std::thread::scope(|sc| {
+        let hs: Vec<_> = (0..FLAT_KINDS.len())
+            .map(|k| {
+                sc.spawn(move || {
+                    let mut out = vec![];
+                    for n in sizes {
+                        let r = run_in_child(&json!({"flat_kind": k, "n": n}), &format!("{}-{}", k, n));
+                        let stop = matches!(&r, Ok((Some(_), _)) | Err(_));
+                        out.push((k, *n, r));
+                        if stop {
+                            break; // the larger sizes of a family that already fails add nothing
+                        }
+                    }
+                    out
+                })
+            })
+            .collect();
+        hs.into_iter().flat_map(|h| h.join().unwrap()).collect()
+    });
+    for (k, n, r) in results {
+        rep.states += 1;
+        rep.transitions += 1;
+        rep.evaluations += 1;
+        rep.count("space:flat-families-in-child-processes", 1);
+        match r {
+            Err(m) => rep.engine_error("C01", m),
+            Ok((None, v)) => {
+                rep.outcome(&("flat", k, v["diagnostics"].as_u64().unwrap_or(0).min(3)));
+                rep.nontrivial_case(&(k, n));
+            }
+            Ok((Some((class, detail)), _)) => {
+                rep.outcome(&("flat-failure", k, class.clone()));
+                rep.violation(Violation {
+                    fingerprint: format!("{}|{}", class, FLAT_KINDS[k].0),
+                    what: format!("{} on the flat input {:?} + {:?} x {} + {:?} ({} bytes, nesting depth 1): {}", class, FLAT_KINDS[k].1, FLAT_KINDS[k].2, n, FLAT_KINDS[k].3, flat_case(k, n).len(), detail),
+                    replay: json!({"engine": "c01", "flat_kind": k, "n": n, "class": class}),
+                });
+            }
+        }
+    }
+}
+
 pub fn replay(v: &Value) -> Value {
     silence_panics();
+    if v["flat_kind"].is_u64() {
+        let spec = json!({"flat_kind": v["flat_kind"], "n": v["n"]});
+        let a = run_in_child(&spec, "replay-a");
+        let b = run_in_child(&spec, "replay-b");
+        let cls = |r: &Result<(Option<(String, String)>, Value), String>| match r {
+            Ok((f, _)) => f.as_ref().map(|x| x.0.clone()),
+            Err(m) => Some(format!("machinery: {}", m)),
+        };
+        return json!({"deterministic": cls(&a) == cls(&b), "failure": cls(&a).map(|c| json!({"class": c, "detail": a.ok().and_then(|x| x.0).map(|x| x.1)}))});
+    }
     let case = Case::from_json(&v["case"]).expect("bad replay file");
     let a = run_case(&case);
     let b = run_case(&case);
